@@ -204,7 +204,8 @@ def cli_sweep(r, n_inputs):
             if rc != 0 or b != open(out, "rb").read():
                 res.append(("fail", m, f"--do_quant with {kind} input (no quantities): expected the table of the run without it, got exit {rc}: {err[-300:]}"))
         if k == 0 and os.path.exists(out) and all(os.path.getsize(f) > 0 for f in files["split"][kind]):
-            outs_ = os.path.join(d, f"out_split_{m}.txt")
+            # (the table is asked for in a result directory that does not exist yet, two levels deep: the tool creates it)
+            outs_ = os.path.join(d, f"results_{m}", "split_run", "proteinGroups.txt")
             rc, err = run_cli([FLAG[kind]] + files["split"][kind] + ["--methods", m, "--protein_groups_out", outs_] +
                               (["--fasta", files["fasta"]] if rem else []), env)
             a = open(out, "rb").read()
